@@ -22,8 +22,17 @@
     Strongest true variants: `judgeC13_accepts_model_sticky_partial` (id ≠ HTTP: accepted iff the segment
     is not a request of the strict grammar) and `judgeC13_accepts_model_sticky_http_partial` (id = HTTP,
     fresh parser state, segment on the dispatcher's domain `METHOD SP "/"…`).
-    The harness never produces sticky observations for C13 (`gen_appcases`: sticky flows only for kinds
-    stun / ssh / smb1 / smb2 / ghost; C13 runs with kinds http / raw), so this is a latent false alarm.
+    Both counterexamples are MOOT for the checking machinery, for two independent reasons:
+      (a) harness (`/verif/harness/props.py`): `judge_lines` builds a `forced` observation only for an op tagged
+          `meta.mode = sticky`, and `gen_appcases` tags ops so only in its `shape == 0` branch, which requires
+          `kind ∈ {stun, ssh, smb1, smb2, ghost}`; property C13 runs `gen_appcases(['http','http','http','raw'])`,
+          so no C13 observation ever carries `forced` — HTTP continuations are judged in "stream" mode;
+      (b) model (`sticky_id_http_iff`, `sticky_first_never_http`): `forced` is the protocol id read from the
+          flow's control block after its first segment; it is HTTP iff that segment starts with
+          `METHOD SP "/"`.  The first segments of the harness's sticky flows start with "SSH-", "Gh0st", or a
+          zero byte (STUN `00 01`, NetBIOS `00`), so `forced = some ID_HTTP` is never read — and a flow whose
+          first segment does start with `METHOD SP "/"` has a parser state past the verb phase, not the
+          fresh one of `judgeC13_sticky_false_http`.
 -/
 import Masscanned.Proofs.J3.Judge
 import Masscanned.Proofs.J3.Stream
@@ -155,6 +164,51 @@ theorem judgeC13_sticky_false_http (cfg : Cfg) :
   rw [handle_http_none, hs]
   rfl
 
+/-- **which flows get the sticky id HTTP**: after the first segment `p` of a flow (gate open), the control block
+    carries `ID_HTTP` iff `p` starts with an upper-case method, SP, "/" -/
+theorem sticky_id_http_iff (cfg : Cfg) (env : Env) (ci ci' : ClientInfo) (t : Tcb) (p : Bytes) (r : Option Bytes)
+    (hg : Gate ci) (h : protoRepl cfg env ci (some {}) p = .ok (ci', some t, r)) :
+    t.protoId = ID_HTTP ↔ ∃ m ∈ httpMethods, ∃ r', p = m ++ 32 :: r' ∧ r'.head? = some 47 := by
+  rw [sticky_id_of_first hg h]
+  constructor
+  · intro hid
+    cases hs : refStreamK2 p with
+    | none => rw [hs] at hid; cases hid
+    | some i =>
+      rw [hs] at hid
+      simp only [Option.getD_some] at hid
+      subst hid
+      exact k2_http_inv p hs
+  · rintro ⟨m, hm, r', hp, h47⟩
+    rw [(http_ident p m r' hm hp h47).1]
+    rfl
+
+/-- the first segments of the harness's sticky flows (`gen_ssh`: "SSH-…", `gen_ghost`: "Gh0st…", `gen_stun_long`:
+    `00 01 …`, `gen_smb1` / `gen_smb2`: NetBIOS type `00`) never produce the sticky id HTTP: the observations of
+    `judgeC13_sticky_false_http` (`forced = some ID_HTTP`) are never built -/
+theorem sticky_first_never_http (cfg : Cfg) (env : Env) (ci ci' : ClientInfo) (t : Tcb) (p : Bytes)
+    (r : Option Bytes) (hg : Gate ci) (h : protoRepl cfg env ci (some {}) p = .ok (ci', some t, r))
+    (hp : sshMagic.isPrefixOf p = true ∨ gh5.isPrefixOf p = true ∨ p.head? = some 0) :
+    t.protoId ≠ ID_HTTP := by
+  intro hid
+  obtain ⟨m, hm, r', rfl, _⟩ := (sticky_id_http_iff cfg env ci ci' t p r hg h).1 hid
+  obtain ⟨hl, h1, h2, h3⟩ := methods_heads m hm
+  have htake : (m ++ 32 :: r').take 2 = m.take 2 := by
+    rw [List.take_append_of_le_length (by omega)]
+  rcases hp with hp | hp | hp
+  · rw [List.isPrefixOf_iff_prefix] at hp
+    obtain ⟨x, hx⟩ := hp
+    apply h1
+    rw [← htake, ← hx]; rfl
+  · rw [List.isPrefixOf_iff_prefix] at hp
+    obtain ⟨x, hx⟩ := hp
+    apply h2
+    rw [← htake, ← hx]; rfl
+  · apply h3
+    cases m with
+    | nil => simp at hl
+    | cons b tl => simpa using hp
+
 /-- sticky, id ≠ HTTP (strongest true variant): accepted whenever the segment is not a request of the strict
     grammar; no other handler's reply is mistaken for an HTTP response -/
 theorem judgeC13_accepts_model_sticky_partial (cfg : Cfg) (env : Env) (id : Nat) (ci : ClientInfo) (p : Bytes)
@@ -271,5 +325,7 @@ end Masscanned.C13Judge
 #print axioms Masscanned.C13Judge.judgeC13_date_needed
 #print axioms Masscanned.C13Judge.judgeC13_sticky_false_other
 #print axioms Masscanned.C13Judge.judgeC13_sticky_false_http
+#print axioms Masscanned.C13Judge.sticky_id_http_iff
+#print axioms Masscanned.C13Judge.sticky_first_never_http
 #print axioms Masscanned.C13Judge.judgeC13_accepts_model_sticky_partial
 #print axioms Masscanned.C13Judge.judgeC13_accepts_model_sticky_http_partial
